@@ -54,7 +54,8 @@ func mkKey(seed uint64) keyRec {
 }
 
 var (
-	valKeys  = []keyRec{mkKey(1), mkKey(2), mkKey(3), mkKey(4)} // genesis consensus validators
+	// consensus validator keys; a world uses the first n of them (the ledger-based families use 7)
+	valKeys  = []keyRec{mkKey(1), mkKey(2), mkKey(3), mkKey(4), mkKey(5), mkKey(6), mkKey(7), mkKey(8), mkKey(9)}
 	ownKey   = mkKey(10)                                        // the owner named by parameters
 	othKey   = mkKey(11)                                        // an unrelated signer
 	candKey  = mkKey(20)                                        // a candidate node key
@@ -76,6 +77,7 @@ func vbftConfigFor(vals []keyRec) *config.VBFTConfig {
 const worldHeight = 20000000 // above every router start block of the main net configuration
 
 type nworld struct {
+	n       int // number of genesis consensus validators
 	overlay *overlaydb.OverlayDB
 	store  *leveldbstore.LevelDBStore
 	height uint32
@@ -103,7 +105,7 @@ func (o callOut) class() string {
 	return "reject:other"
 }
 
-func newNWorld() *nworld {
+func newNWorld(n int) *nworld {
 	store, err := leveldbstore.NewMemLevelDBStore()
 	if err != nil {
 		panic(err)
@@ -112,9 +114,9 @@ func newNWorld() *nworld {
 	// SideChain / RegisterSideChainParam serialisation consults the *global* ledger.DefLedger for a fork height when
 	// this flag is set (native/service sets it at init); this world has no global ledger: use the post-fork encoding.
 	config.EXTRA_INFO_HEIGHT_FORK_CHECK = false
-	w := &nworld{store: store, height: worldHeight, time: 1700000000}
+	w := &nworld{n: n, store: store, height: worldHeight, time: 1700000000}
 	sink := common.NewZeroCopySink(nil)
-	vbftConfigFor(valKeys).Serialization(sink)
+	vbftConfigFor(valKeys[:n]).Serialization(sink)
 	if out := w.invoke(nil, nil, utils.NodeManagerContractAddress, "initConfig", sink.Bytes(), true); !out.ok {
 		panic("initConfig failed: " + out.errStr)
 	}
@@ -161,6 +163,11 @@ func relayHandler(s *native.NativeService) ([]byte, error) {
 
 // service builds a NativeService over a fresh overlay on the committed store.
 func (w *nworld) service(signers []common.Address, code []byte) (*native.NativeService, *overlaydb.OverlayDB, *storage.CacheDB) {
+	return w.serviceP(signers, common.ADDRESS_EMPTY, code)
+}
+
+// serviceP: the transaction additionally names a payer (a field nothing ties to the signatures).
+func (w *nworld) serviceP(signers []common.Address, payer common.Address, code []byte) (*native.NativeService, *overlaydb.OverlayDB, *storage.CacheDB) {
 	// one overlay object per world, emptied before every use (allocating it is by far the most expensive step)
 	if w.overlay == nil {
 		w.overlay = overlaydb.NewOverlayDB(w.store)
@@ -169,7 +176,7 @@ func (w *nworld) service(signers []common.Address, code []byte) (*native.NativeS
 	overlay.Reset()
 	cache := storage.NewCacheDB(overlay)
 	w.nonce++
-	tx := rawInvokeTx(code, w.nonce, signers)
+	tx := rawInvokeTxPayer(code, w.nonce, signers, payer)
 	svc, err := native.NewNativeService(cache, tx, w.time, w.height, common.Uint256{}, tx.ChainID, code, false)
 	if err != nil {
 		panic(err)
@@ -179,7 +186,12 @@ func (w *nworld) service(signers []common.Address, code []byte) (*native.NativeS
 
 // invoke runs one transaction through the real NativeService.Invoke; on success with commit the writes are persisted.
 func (w *nworld) invoke(signers, via []common.Address, contract common.Address, method string, args []byte, commit bool) (out callOut) {
-	svc, overlay, cache := w.service(signers, relayCode(via, contract, method, args))
+	return w.invokeCodeTx(signers, common.ADDRESS_EMPTY, relayCode(via, contract, method, args), commit)
+}
+
+// invokeCodeTx runs a transaction with the given invoke code, signers and payer.
+func (w *nworld) invokeCodeTx(signers []common.Address, payer common.Address, code []byte, commit bool) (out callOut) {
+	svc, overlay, cache := w.serviceP(signers, payer, code)
 	var err error
 	func() {
 		defer func() {
@@ -216,7 +228,14 @@ func (w *nworld) invoke(signers, via []common.Address, contract common.Address, 
 
 // operator recomputes the consensus operator address independently of GetCurConOperator: consensus peers of the current
 // view's pool, multi-signature address of their keys.
-func (w *nworld) operator() common.Address {
+func (w *nworld) operator() common.Address { return w.operatorM(0) }
+
+// operatorShort: the multi-signature address of the same keys with one signature less than the operator's threshold.
+func (w *nworld) operatorShort() common.Address { return w.operatorM(1) }
+
+// operatorM recomputes the operator address independently of GetCurConOperator and of AddressFromBookkeepers: the
+// consensus peers of the current view's pool, and the (n - (n-1)/3 - less)-of-n multi-signature address of their keys.
+func (w *nworld) operatorM(less int) common.Address {
 	svc, _, _ := w.service(nil, nil)
 	view, err := node_manager.GetView(svc)
 	if err != nil {
@@ -237,7 +256,18 @@ func (w *nworld) operator() common.Address {
 			keys = append(keys, pk)
 		}
 	}
-	a, err := types.AddressFromBookkeepers(keys)
+	n := len(keys)
+	if n == 1 {
+		if less > 0 {
+			return common.ADDRESS_EMPTY
+		}
+		return types.AddressFromPubKey(keys[0])
+	}
+	m := n - (n-1)/3 - less
+	if m < 1 {
+		return common.ADDRESS_EMPTY
+	}
+	a, err := types.AddressFromMultiPubKeys(keys, m)
 	if err != nil {
 		panic(err)
 	}
@@ -333,11 +363,20 @@ func catalogue() []methodSpec {
 		{"node_manager approveCandidate", "owner", nm, node_manager.APPROVE_CANDIDATE, peer(candKey)},
 		{"node_manager blackNode", "owner", nm, node_manager.BLACK_NODE, func(o common.Address, v int) []byte {
 			return ser(func(s *common.ZeroCopySink) {
-				(&node_manager.PeerListParam{PeerPubkeyList: []string{hex.EncodeToString(valKeys[3].pk)}, Address: o}).Serialization(s)
+				list := []string{hex.EncodeToString(valKeys[3].pk)}
+				switch v {
+				case 1: // two peers leave in one step
+					list = []string{hex.EncodeToString(valKeys[3].pk), hex.EncodeToString(valKeys[4].pk)}
+				case 2:
+					list = []string{hex.EncodeToString(valKeys[5].pk), hex.EncodeToString(valKeys[6].pk)}
+				}
+				(&node_manager.PeerListParam{PeerPubkeyList: list, Address: o}).Serialization(s)
 			})
 		}},
 		{"node_manager whiteNode", "owner", nm, node_manager.WHITE_NODE, peer(valKeys[3])},
-		{"node_manager quitNode", "owner", nm, node_manager.QUIT_NODE, peer(valKeys[3])},
+		{"node_manager quitNode", "owner", nm, node_manager.QUIT_NODE, func(o common.Address, v int) []byte {
+			return peer(valKeys[3+v%3])(o, v) // variant v: validator 4, 5 or 6 leaves
+		}},
 		{"node_manager updateConfig", "operator", nm, node_manager.UPDATE_CONFIG, func(o common.Address, v int) []byte {
 			return ser(func(s *common.ZeroCopySink) {
 				(&node_manager.UpdateConfigParam{Configuration: &node_manager.Configuration{BlockMsgDelay: 10000, HashMsgDelay: 10000,
@@ -459,7 +498,7 @@ func (w *nworld) setupChains() {
 		if out := w.invoke([]common.Address{ownKey.addr}, nil, scm, side_chain_manager.REGISTER_SIDE_CHAIN, sideChainParam(ownKey.addr, id, r.router, r.pkg), true); !out.ok {
 			panic("setup registerSideChain: " + out.errStr)
 		}
-		for i := 0; i < 3; i++ {
+		for i := 0; i < (2*w.n+2)/3; i++ {
 			args := ser(func(s *common.ZeroCopySink) { (&side_chain_manager.ChainidParam{Chainid: id, Address: valKeys[i].addr}).Serialization(s) })
 			if out := w.invoke([]common.Address{valKeys[i].addr}, nil, scm, side_chain_manager.APPROVE_REGISTER_SIDE_CHAIN, args, true); !out.ok {
 				panic("setup approveRegisterSideChain: " + out.errStr)
